@@ -105,6 +105,7 @@ class Insert:
         self.values = None  # list of exprs
         self.select = None
         self.or_replace = False
+        self.conflict = None    # the OR <resolution> of INSERT OR ... / REPLACE INTO
 
 
 class Update:
@@ -588,10 +589,11 @@ class Parser:
         ins = Insert()
         if self.accept_kw("REPLACE"):
             ins.or_replace = True
+            ins.conflict = "REPLACE"
         else:
             self.expect_kw("INSERT")
             if self.accept_kw("OR"):
-                self.take()
+                ins.conflict = str(self.take()[1]).upper()       # REPLACE / IGNORE / ABORT / FAIL / ROLLBACK
                 ins.or_replace = True
         self.expect_kw("INTO")
         ins.table = self.ident()
